@@ -16,6 +16,20 @@ func ThreadSafeDuplex[T uint32 | uint64](provider Duplex[T]) Duplex[T] {
 	}
 }
 
+// operand returns the provider a binary operation should read from. When the operand is another thread-safe
+// wrapper its contents are copied under its own lock first, so that no operation ever calls into a second wrapper
+// while holding the receiver's lock. Without this a.Or(b) running concurrently with b.Or(a) deadlocks.
+func (s threadSafeDuplex[T]) operand(other Provider[T]) Provider[T] {
+	if wrapped, isWrapped := other.(threadSafeDuplex[T]); isWrapped {
+		wrapped.lock.Lock()
+		defer wrapped.lock.Unlock()
+
+		return wrapped.provider.Clone()
+	}
+
+	return other
+}
+
 func (s threadSafeDuplex[T]) Clear() {
 	s.lock.Lock()
 	defer s.lock.Unlock()
@@ -31,6 +45,8 @@ func (s threadSafeDuplex[T]) Add(values ...T) {
 }
 
 func (s threadSafeDuplex[T]) AndNot(other Provider[T]) {
+	other = s.operand(other)
+
 	s.lock.Lock()
 	defer s.lock.Unlock()
 
@@ -45,6 +61,8 @@ func (s threadSafeDuplex[T]) Remove(value T) {
 }
 
 func (s threadSafeDuplex[T]) Xor(other Provider[T]) {
+	other = s.operand(other)
+
 	s.lock.Lock()
 	defer s.lock.Unlock()
 
@@ -52,6 +70,8 @@ func (s threadSafeDuplex[T]) Xor(other Provider[T]) {
 }
 
 func (s threadSafeDuplex[T]) And(other Provider[T]) {
+	other = s.operand(other)
+
 	s.lock.Lock()
 	defer s.lock.Unlock()
 
@@ -59,6 +79,8 @@ func (s threadSafeDuplex[T]) And(other Provider[T]) {
 }
 
 func (s threadSafeDuplex[T]) Or(other Provider[T]) {
+	other = s.operand(other)
+
 	s.lock.Lock()
 	defer s.lock.Unlock()
 
